@@ -367,7 +367,9 @@ func appendSnapshotFunctions(b []byte, s *slip.Scope) []byte {
 		}
 		var fia []*slip.FuncInfo
 		p.EachFuncInfo(func(fi *slip.FuncInfo) {
-			if fi.Pkg == p {
+			// A call compiled before its function is defined registers a
+			// placeholder without documentation. It is not a definition.
+			if fi.Pkg == p && fi.Doc != nil {
 				fia = append(fia, fi)
 			}
 		})
